@@ -3,7 +3,7 @@
 From Coq Require Import String Ascii List Bool.
 From Verif Require Import Model.Report Gen.ReportLabels.
 (* loaded by the correspondence shards only; required here so that they are built with the property *)
-From Verif Require Model.FloatLit Gen.ReportLits.
+From Verif Require Gen.ReportLits.
 Import ListNotations.
 
 Lemma templates_ok_all : forallb row_template_ok report_templates = true.
